@@ -35,7 +35,7 @@ def rule(tier):
 
 def floors(tier):
     return {"evaluations": 550 if tier == "quick" else 8000, "distinct": 550 if tier == "quick" else 6000,
-            "counters": {"open_views_judged": 900, "reloaded_views_judged": 600, "rectangles_merged": 1200, "list_arguments": 100, "tables_added_beside_merged": 300,
+            "counters": {"open_views_judged": 900, "reloaded_views_judged": 600, "rectangles_merged": 1200, "list_arguments": 100, "tables_added_beside_merged": 300, "source_documents_with_added_merges": 15,
                          "structural_before": 50, "structural_after": 50, "structural_inside": 30, "multi_tile_tables": 5, "placeholders_checked": 3000}}
 
 
@@ -56,6 +56,7 @@ def plan(tier, seed):
     kk = 16 if tier == "quick" else 48
     for i in range(kk):
         specs.append({"part": "random", "n": n // kk, "stream": i, "tier": tier, "seed": seed})
+    specs.append({"part": "sources", "n": 24 if tier == "quick" else 400, "tier": tier, "seed": seed})
     return specs
 
 
@@ -466,15 +467,107 @@ def run_random(spec, rec):
             rec.sample({"random_history_seed": case["rseed"]})
 
 
+SOURCE_DOCS = ["test-9.numbers", "issue-59.numbers", "test-custom-formats.numbers", "test-titles.numbers"]
+
+
+def parse_rect(text):
+    from vf.ref import a1
+    a, b = text.split(":")
+    r0, c0 = a1.parse_cell(a)[:2]
+    r1, c1 = a1.parse_cell(b)[:2]
+    return (r0, c0, r1, c1)
+
+
+def source_case(case, rec):
+    """A document written by Numbers whose table already has merged regions (they are stored differently from the ones the
+    library writes): further regions merged through the API join them, on the open document and after save and reopen."""
+    from numbers_parser import Document
+    from vf import corpus
+    rng = random.Random(case["rseed"])
+    path = os.path.join(corpus.DATA, case["doc"])
+    with warnings.catch_warnings():
+        warnings.simplefilter("ignore")
+        doc = Document(path)
+        cands = [(si, ti) for si in range(len(doc.sheets)) for ti in range(len(doc.sheets[si].tables)) if doc.sheets[si].tables[ti].merge_ranges]
+        if not cands:
+            rec.build_failure("source document without merged regions")
+            return
+        si, ti = rng.choice(cands)
+        t = doc.sheets[si].tables[ti]
+        try:
+            old = [parse_rect(x) for x in t.merge_ranges]
+        except Exception as e:  # noqa: BLE001
+            rec.build_failure(f"merge ranges of the source not parsable: {type(e).__name__}")
+            return
+        R, C = t.num_rows, t.num_cols
+        new = []
+        for _ in range(40):
+            r0, c0 = rng.randrange(R), rng.randrange(C)
+            r1, c1 = min(R - 1, r0 + rng.randint(0, 2)), min(C - 1, c0 + rng.randint(0, 2))
+            rect = (r0, c0, r1, c1)
+            if (r0, c0) != (r1, c1) and all(disjoint(rect, x) for x in old + new):
+                new.append(rect)
+            if len(new) >= rng.randint(1, 3):
+                break
+        if not new:
+            rec.build_failure("no free rectangle in the source table")
+            return
+        fields = {"structural": "none", "origin": "numbers-written-source"}
+        try:
+            for x in new:
+                t.merge_cells(rname(x))
+        except Exception as e:  # noqa: BLE001
+            rec.violation("merge_raised", {"exc": type(e).__name__, **fields}, {"arg": [rname(x) for x in new], "msg": str(e)[:200]}, case=case)
+            return
+    rec.count("rectangles_merged", len(new))
+    rec.count("source_documents_with_added_merges")
+    want = sorted(rname(x) for x in old + new)
+
+    def judge(tbl, label):
+        got, mr = view(tbl)
+        rec.count("open_views_judged" if label == "open" else "reloaded_views_judged")
+        if sorted(mr) != want:
+            rec.violation("merge_ranges", {**fields, "view": label}, {"got": sorted(mr), "want": want, "added": [rname(x) for x in new]}, case=case)
+            return
+        exp_cells, _ = expect(new)
+        for pos, w in exp_cells.items():
+            g = got.get(pos)
+            if g is None or g[0] != w[0] or (w[0] == "anchor" and g[1] != w[1]) or (w[0] == "ref" and (g[1] != w[1] or g[4] != w[4])):
+                rec.violation("cell_merge_state", {**fields, "view": label, "cell": w[0]}, {"pos": list(pos), "got": repr(g), "want": repr(w)}, case=case)
+                return
+    judge(t, "open")
+    self_consistent(t, rec, case, fields, "open")
+    try:
+        doc2 = reopen(doc, f"src-{case['rseed']}")
+    except Exception as e:  # noqa: BLE001
+        rec.violation("save_or_reopen_raised", {"exc": type(e).__name__, **fields}, {"msg": str(e)[:200]}, case=case)
+        return
+    t2 = doc2.sheets[si].tables[ti]
+    judge(t2, "reloaded")
+    self_consistent(t2, rec, case, fields, "reloaded")
+    rec.case(("source", case["doc"], case["rseed"]), nontrivial=True)
+
+
+def run_sources(spec, rec):
+    rng = random.Random(f"C12-src-{spec['seed']}")
+    for i in range(spec["n"]):
+        case = {"part": "source", "doc": SOURCE_DOCS[i % len(SOURCE_DOCS)], "rseed": rng.randrange(1 << 40)}
+        source_case(case, rec)
+        if i == 0:
+            rec.sample({"source_document": case})
+
+
 def run_shard(spec, rec):
     if "cases" in spec:
         for c in spec["cases"]:
             replay(c, rec)
         return
-    {"exh1": run_exh1, "exh2": run_exh2, "random": run_random}[spec["part"]](spec, rec)
+    {"exh1": run_exh1, "exh2": run_exh2, "random": run_random, "sources": run_sources}[spec["part"]](spec, rec)
 
 
 def replay(case, rec):
+    if case.get("part") == "source":
+        return source_case(case, rec)
     if case.get("part") == "simple":
         simple_case(case["shape"][0], case["shape"][1], [tuple(r) for r in case["rects"]], case["as_list"], rec, case)
         rec.case(("replay", str(case)))
